@@ -44,6 +44,12 @@ def collect(ctx):
         xs = drv_change.shifty_stream(rng, 300, seg=(6, 30))
         script = [("update", x) for x in xs]
         script.insert(rng.randrange(1, len(script)), ("bad", np.zeros((2, 1))))
+        # calls that only the detector's OWN one-variable guard refuses: a two-variable row as the very first call, and a two-column DataFrame row
+        # after array history - refused calls are not counted, wherever the refusal comes from
+        import pandas as pd
+        script.insert(rng.randrange(1, len(script)), ("bad", pd.DataFrame({"a": [1.0], "b": [2.0]})))
+        if i % 2 == 0:
+            script.insert(0, ("bad", np.array([[1.0, 2.0]])))
         ph = list(script)
         ph.insert(rng.randrange(len(ph)), ("reset",))
         ts.append(L.from_change(drv_change.ph_run(c04.ph_params(rng, small=rng.random() < 0.5), ph)))
